@@ -3,6 +3,7 @@
 -/
 import NutsModel.C20.Outbound
 import NutsModel.C20.Sources
+import NutsModel.C20.Engines
 
 namespace Nuts.C20
 open Nuts Nuts.C18
@@ -201,5 +202,49 @@ theorem splitWithEscaping_plain (sep esc : Nat) (s : Bytes) (h1 : esc ∉ s) (h0
       simp [this]
     rw [List.map_congr_left this]; simp
   rw [List.map_congr_left this]; simp
+
+
+
+theorem startFiles_refines (tlds l2s : List Bytes) (c : Config) (f : TLSFiles) (hc : f.consistent = true) :
+    startFiles (fun a b _ => decide (a > 0 ∨ b > 0)) tlds l2s c f = start tlds l2s { c with tls := decide (f.certLen > 0 ∨ f.keyLen > 0) } := by
+  have hl : load { c with tls := decide (f.certLen > 0 ∨ f.keyLen > 0) } = load c := rfl
+  have hst : storageConfigure { c with tls := decide (f.certLen > 0 ∨ f.keyLen > 0) } = storageConfigure c := rfl
+  have hcr : cryptoConfigure { c with tls := decide (f.certLen > 0 ∨ f.keyLen > 0) } = cryptoConfigure c := rfl
+  have hv : vdrConfigure tlds l2s { c with tls := decide (f.certLen > 0 ∨ f.keyLen > 0) } = vdrConfigure tlds l2s c := rfl
+  have ha : authConfigure { c with tls := decide (f.certLen > 0 ∨ f.keyLen > 0) } = authConfigure c := rfl
+  unfold TLSFiles.consistent at hc
+  simp only [Bool.or_eq_true, Bool.and_eq_true, decide_eq_true_eq] at hc
+  have hg : tlsLoad (fun a b _ => decide (a > 0 ∨ b > 0)) f = none := by
+    unfold tlsLoad
+    rcases hc with ⟨⟨⟨h1, h2⟩, h3⟩, h4⟩ | ⟨⟨h1, h2⟩, h3⟩
+    · have e1 : f.certLen ≠ 0 := by omega
+      have e2 : f.keyLen ≠ 0 := by omega
+      have e3 : f.trustLen ≠ 0 := by omega
+      simp [h1, h4, e1, e2, e3]
+    · simp [h1, h2]
+  have hn : networkConfigureFiles (fun a b _ => decide (a > 0 ∨ b > 0)) c f =
+      networkConfigure { c with tls := decide (f.certLen > 0 ∨ f.keyLen > 0) } := by
+    unfold networkConfigureFiles networkConfigure
+    rw [hg]
+  unfold startFiles start
+  rw [hl, hst, hcr, hv, ha, hn, hg]
+  rfl
+
+theorem startFiles_ok (tlds l2s : List Bytes) (c : Config) (f : TLSFiles) (r : Running)
+    (h : startFiles (fun a b _ => decide (a > 0 ∨ b > 0)) tlds l2s c f = .ok r) :
+    (f.certLen > 0 ∧ f.keyLen > 0 ∧ f.trustLen > 0 ∧ f.valid = true) ∨ (f.certLen = 0 ∧ f.keyLen = 0 ∧ (c.strict = true → c.nuts = false)) := by
+  unfold startFiles at h
+  split at h <;> try (simp at h)
+  split at h <;> try (simp at h)
+  split at h <;> try (simp at h)
+  split at h <;> try (simp at h)
+  split at h <;> try (simp at h)
+  split at h <;> try (simp at h)
+  split at h <;> try (simp at h)
+  rename_i _ _ _ _ _ _ _ _ _ hg _ hn _ _
+  unfold tlsLoad at hg
+  unfold networkConfigureFiles tlsLoad at hn
+  by_cases a0 : f.certLen = 0 <;> by_cases b0 : f.keyLen = 0 <;> by_cases t0 : f.trustLen = 0 <;> cases hv : f.valid <;>
+    cases hs : c.strict <;> cases hnn : c.nuts <;> simp_all <;> omega
 
 end Nuts.C20
